@@ -237,7 +237,7 @@ Proof.
   - rewrite A, B. unfold DAYUS. ring.
 Qed.
 
-(* ------------------------------------------------------------------ Part 4: division by a Duration agrees with timedelta's own operators *)
+(* ------------------------------------------------------------------ Part 4: division by a Duration / a plain timedelta agrees with timedelta's own operators *)
 (* "the same length": a Duration result against the plain-timedelta result of the native operation *)
 Definition same_length (r t : opres) : Prop :=
   match r, t with
@@ -248,26 +248,35 @@ Definition same_length (r t : opres) : Prop :=
   | _, _ => False
   end.
 
+(* _timedelta_to_microseconds(other) of a PLAIN timedelta: (days * 86400 + seconds) * 10^6 + microseconds of its normal form is the
+   microsecond count it holds *)
+Lemma plain_td_us : forall n, py_timedelta_to_microseconds_plain (plain_td n) = n.
+Proof.
+  intro n. unfold py_timedelta_to_microseconds_plain, plain_td, ptd_days, ptd_seconds, ptd_micro.
+  pose proof (td_us_norm n) as H. destruct (td_norm n) as [[a b] c]. cbn [fst snd]. exact H.
+Qed.
+
 Lemma div_mod_by_duration_spec : forall m d d2 r, (m = 5 \/ m = 6 \/ m = 7 \/ m = 8) -> exact0 d -> exact0 d2 ->
   dur_method m d (VDur d2) = Ok r ->
   d_N d2 <> 0 /\ exists t, td_binop m (d_N d) (d_N d2) = Ok t /\ same_length r t.
 Proof.
   intros m d d2 r Hm E1 E2 H. unfold exact0 in *.
   destruct Hm as [-> | [-> | [-> | ->]]]; cbn [dur_method td_binop] in *.
-  - unfold dur_floordiv in H. rewrite E2 in H. destruct (d_N d2 =? 0) eqn:Z0; [discriminate|].
+  - unfold dur_floordiv, py_timedelta_to_microseconds_duration in H. rewrite E2 in H. destruct (d_N d2 =? 0) eqn:Z0; [discriminate|].
     split; [apply Z.eqb_neq; exact Z0|]. eexists; split; [reflexivity|].
-    inversion H; subst. unfold py_Duration_floordiv_duration_value. cbv zeta. rewrite E1, E2. reflexivity.
-  - unfold dur_truediv in H. rewrite E1, E2 in H.
+    inversion H; subst. unfold py_Duration_floordiv_duration_value, py_timedelta_to_microseconds_duration. cbv zeta. rewrite E1, E2. reflexivity.
+  - unfold dur_truediv, py_timedelta_to_microseconds_duration in H. rewrite E1, E2 in H.
     destruct (py_int_truediv (d_N d) (d_N d2)) as [x|e] eqn:T; [|discriminate]. cbn in H. inversion H; subst.
     split; [intro Z0; rewrite Z0 in T; discriminate|]. eexists; split; [reflexivity|]. reflexivity.
-  - unfold dur_mod in H. rewrite E2 in H. destruct (d_N d2 =? 0) eqn:Z0; [discriminate|].
+  - unfold dur_mod, py_timedelta_to_microseconds_duration in H. rewrite E2 in H. destruct (d_N d2 =? 0) eqn:Z0; [discriminate|].
     split; [apply Z.eqb_neq; exact Z0|]. eexists; split; [reflexivity|].
-    unfold py_Duration_mod_duration_microseconds in H. cbv zeta in H. rewrite E1, E2 in H.
+    unfold py_Duration_mod_duration_microseconds, py_timedelta_to_microseconds_duration in H. cbv zeta in H. rewrite E1, E2 in H.
     destruct (dur_of_us (d_N d mod d_N d2)) as [r'|e] eqn:R; [|discriminate]. cbn in H. inversion H; subst.
     apply dur_of_us_native in R. cbn. apply R.
-  - unfold dur_divmod in H. rewrite E2 in H. destruct (d_N d2 =? 0) eqn:Z0; [discriminate|].
+  - unfold dur_divmod, py_timedelta_to_microseconds_duration in H. rewrite E2 in H. destruct (d_N d2 =? 0) eqn:Z0; [discriminate|].
     split; [apply Z.eqb_neq; exact Z0|]. eexists; split; [reflexivity|].
-    unfold py_Duration_divmod_duration_microseconds, py_Duration_divmod_duration_quotient in H. cbv zeta in H. rewrite E1, E2 in H.
+    unfold py_Duration_divmod_duration_microseconds, py_Duration_divmod_duration_quotient, py_timedelta_to_microseconds_duration in H.
+    cbv zeta in H. rewrite E1, E2 in H.
     destruct (dur_of_us (d_N d mod d_N d2)) as [r'|e] eqn:R; [|discriminate]. cbn in H. inversion H; subst.
     apply dur_of_us_native in R. cbn. split; [reflexivity | apply R].
 Qed.
@@ -276,13 +285,108 @@ Lemma div_by_zero_duration : forall m d d2, (m = 5 \/ m = 6 \/ m = 7 \/ m = 8) -
   dur_method m d (VDur d2) = Raise E_ZeroDivisionError.
 Proof.
   intros m d d2 Hm E2.
-  destruct Hm as [-> | [-> | [-> | ->]]]; cbn [dur_method]; unfold dur_floordiv, dur_truediv, dur_mod, dur_divmod; rewrite E2; reflexivity.
+  destruct Hm as [-> | [-> | [-> | ->]]]; cbn [dur_method];
+    unfold dur_floordiv, dur_truediv, dur_mod, dur_divmod, py_timedelta_to_microseconds_duration; rewrite E2; reflexivity.
 Qed.
 
-(* the defect: a PLAIN timedelta on the right of // / % divmod always raises AttributeError *)
-Lemma div_by_plain_timedelta_raises : forall m d n, (m = 5 \/ m = 6 \/ m = 7 \/ m = 8) ->
-  dur_method m d (VTd n) = Raise E_AttributeError.
-Proof. intros m d n Hm. destruct Hm as [-> | [-> | [-> | ->]]]; reflexivity. Qed.
+(* ---- the same four operators with a PLAIN datetime.timedelta on the right (the repaired code: the divisor is the microsecond count
+   of the timedelta's public days / seconds / microseconds) *)
+Lemma div_mod_by_timedelta_spec : forall m d n r, (m = 5 \/ m = 6 \/ m = 7 \/ m = 8) -> exact0 d ->
+  dur_method m d (VTd n) = Ok r ->
+  n <> 0 /\ exists t, td_binop m (d_N d) n = Ok t /\ same_length r t.
+Proof.
+  intros m d n r Hm E1 H. unfold exact0 in *.
+  destruct Hm as [-> | [-> | [-> | ->]]]; cbn [dur_method td_binop] in *.
+  - unfold dur_floordiv in H. rewrite plain_td_us in H. destruct (n =? 0) eqn:Z0; [discriminate|].
+    split; [apply Z.eqb_neq; exact Z0|]. eexists; split; [reflexivity|].
+    inversion H; subst. unfold py_Duration_floordiv_timedelta_value. cbv zeta. rewrite E1, plain_td_us. reflexivity.
+  - unfold dur_truediv in H. rewrite E1, plain_td_us in H.
+    destruct (py_int_truediv (d_N d) n) as [x|e] eqn:T; [|discriminate]. cbn in H. inversion H; subst.
+    split; [intro Z0; rewrite Z0 in T; discriminate|]. eexists; split; [reflexivity|]. reflexivity.
+  - unfold dur_mod in H. rewrite plain_td_us in H. destruct (n =? 0) eqn:Z0; [discriminate|].
+    split; [apply Z.eqb_neq; exact Z0|]. eexists; split; [reflexivity|].
+    unfold py_Duration_mod_timedelta_microseconds in H. cbv zeta in H. rewrite E1, plain_td_us in H.
+    destruct (dur_of_us (d_N d mod n)) as [r'|e] eqn:R; [|discriminate]. cbn in H. inversion H; subst.
+    apply dur_of_us_native in R. cbn. apply R.
+  - unfold dur_divmod in H. rewrite plain_td_us in H. destruct (n =? 0) eqn:Z0; [discriminate|].
+    split; [apply Z.eqb_neq; exact Z0|]. eexists; split; [reflexivity|].
+    unfold py_Duration_divmod_timedelta_microseconds, py_Duration_divmod_timedelta_quotient in H. cbv zeta in H. rewrite E1, plain_td_us in H.
+    destruct (dur_of_us (d_N d mod n)) as [r'|e] eqn:R; [|discriminate]. cbn in H. inversion H; subst.
+    apply dur_of_us_native in R. cbn. split; [reflexivity | apply R].
+Qed.
+
+Lemma div_by_zero_timedelta : forall m d, (m = 5 \/ m = 6 \/ m = 7 \/ m = 8) -> dur_method m d (VTd 0) = Raise E_ZeroDivisionError.
+Proof.
+  intros m d Hm.
+  destruct Hm as [-> | [-> | [-> | ->]]]; cbn [dur_method];
+    unfold dur_floordiv, dur_truediv, dur_mod, dur_divmod; rewrite ?plain_td_us; reflexivity.
+Qed.
+
+(* whether the right operand is a Duration or the plain timedelta of the same length makes no difference at all: same value, same
+   exception, same Duration result (no hypothesis on the left operand) *)
+Lemma div_mod_operand_kind_irrelevant : forall m d d2, (m = 5 \/ m = 6 \/ m = 7 \/ m = 8) -> exact0 d2 ->
+  dur_method m d (VTd (d_N d2)) = dur_method m d (VDur d2).
+Proof.
+  intros m d d2 Hm E2. unfold exact0 in E2.
+  destruct Hm as [-> | [-> | [-> | ->]]]; cbn [dur_method];
+    unfold dur_floordiv, dur_truediv, dur_mod, dur_divmod,
+           py_Duration_floordiv_timedelta_value, py_Duration_floordiv_duration_value,
+           py_Duration_mod_timedelta_microseconds, py_Duration_mod_duration_microseconds,
+           py_Duration_divmod_timedelta_microseconds, py_Duration_divmod_duration_microseconds,
+           py_Duration_divmod_timedelta_quotient, py_Duration_divmod_duration_quotient,
+           py_timedelta_to_microseconds_duration; cbv zeta; rewrite ?plain_td_us, ?E2; reflexivity.
+Qed.
+
+(* // and / by a plain timedelta ARE timedelta's own operators on the native values: value and exception *)
+Lemma floordiv_truediv_by_timedelta_native : forall m d n, (m = 5 \/ m = 6) -> exact0 d ->
+  dur_method m d (VTd n) = td_binop m (d_N d) n.
+Proof.
+  intros m d n Hm E1. unfold exact0 in E1.
+  destruct Hm as [-> | ->]; cbn [dur_method td_binop]; unfold dur_floordiv, dur_truediv, py_Duration_floordiv_timedelta_value;
+    cbv zeta; rewrite ?plain_td_us, ?E1; reflexivity.
+Qed.
+
+(* the formerly refuted statement, now true: whenever timedelta's own operator yields a value, so does the Duration operator, and the
+   same one.  For % and divmod the remainder is handed to Duration.__new__: that this construction succeeds is a fact about the
+   constructor (C09), stated as a hypothesis here and discharged below 2^33 s by remainder_constructible *)
+Lemma div_by_timedelta_agrees : forall m d n t, (m = 5 \/ m = 6 \/ m = 7 \/ m = 8) -> exact0 d ->
+  td_binop m (d_N d) n = Ok t ->
+  (m = 7 \/ m = 8 -> exists r0, dur_of_us (d_N d mod n) = Ok r0) ->
+  exists r, dur_method m d (VTd n) = Ok r /\ same_length r t.
+Proof.
+  intros m d n t Hm E1 H Hc.
+  destruct Hm as [-> | [-> | [-> | ->]]].
+  - rewrite (floordiv_truediv_by_timedelta_native 5 d n (or_introl eq_refl) E1). exists t. split; [exact H|].
+    cbn [td_binop] in H. destruct (n =? 0); [discriminate|]. inversion H; subst. reflexivity.
+  - rewrite (floordiv_truediv_by_timedelta_native 6 d n (or_intror eq_refl) E1). exists t. split; [exact H|].
+    cbn [td_binop] in H. destruct (py_int_truediv (d_N d) n); [|discriminate]. cbn in H. inversion H; subst. reflexivity.
+  - destruct (Hc (or_introl eq_refl)) as [r0 R0]. unfold exact0 in E1.
+    cbn [td_binop] in H. destruct (n =? 0) eqn:Z0; [discriminate|]. inversion H; subst.
+    exists (RDur r0). split.
+    + cbn [dur_method]. unfold dur_mod. rewrite plain_td_us, Z0. unfold py_Duration_mod_timedelta_microseconds. cbv zeta.
+      rewrite E1, plain_td_us, R0. reflexivity.
+    + cbn. apply dur_of_us_native in R0. apply R0.
+  - destruct (Hc (or_intror eq_refl)) as [r0 R0]. unfold exact0 in E1.
+    cbn [td_binop] in H. destruct (n =? 0) eqn:Z0; [discriminate|]. inversion H; subst.
+    exists (RPair (d_N d / n) r0). split.
+    + cbn [dur_method]. unfold dur_divmod. rewrite plain_td_us, Z0.
+      unfold py_Duration_divmod_timedelta_microseconds, py_Duration_divmod_timedelta_quotient. cbv zeta.
+      rewrite E1, plain_td_us, R0. reflexivity.
+    + cbn. split; [reflexivity|]. apply dur_of_us_native in R0. apply R0.
+Qed.
+
+(* Duration(0, 0, u) succeeds while the float normalisation of Duration.__new__ is exact (C09's premise, |u| < 2^33 s) *)
+Lemma remainder_constructible : float_split_exact_on_D9 -> forall u, Z.abs u < B33 -> exists r0, dur_of_us u = Ok r0.
+Proof.
+  intros Hs u Hu. unfold dur_of_us.
+  assert (HN : td_of_int_args (0 + YM 0 0) 0 u 0 0 0 0 = Ok u).
+  { pose proof (td_of_int_args_ok (0 + YM 0 0) 0 u 0 0 0 0) as K. cbv zeta in K.
+    replace (((((0 * 7 + (0 + YM 0 0)) * 24 + 0) * 60 + 0) * 60 + 0) * 1000000 + 0 * 1000 + u) with u in K by (unfold YM; ring).
+    apply K. unfold B33 in Hu. lia. }
+  assert (HD : D9 u (YM 0 0 * 86400)) by (left; split; [reflexivity | exact Hu]).
+  destruct (duration_new_exact_partial Hs _ _ _ _ _ _ _ _ _ _ HN HD) as [total E].
+  eexists. exact E.
+Qed.
 
 (* ------------------------------------------------------------------ Part 5: + - and int * (through float seconds) *)
 Definition B31 : Z := 2147483648000000.   (* 2^31 * 10^6 *)
@@ -392,21 +496,7 @@ Lemma addsub_float_exact_samples :
           (2147483647999999, -2147483647999998); (1500000, -2500001); (3, 1000000000000000)].
 Proof. repeat constructor; vm_compute; reflexivity. Qed.
 
-(* ------------------------------------------------------------------ Part 6: the defect — division by a plain timedelta *)
-Lemma div_by_timedelta_refuted :
-  ~ (forall m d n t, (m = 5 \/ m = 6 \/ m = 7 \/ m = 8) -> exact0 d -> td_binop m (d_N d) n = Ok t ->
-       exists r, dur_method m d (VTd n) = Ok r /\ same_length r t).
-Proof.
-  intro H.
-  destruct (duration_new 3 0 0 0 0 0 0 0 0) as [d|e] eqn:E; [|vm_compute in E; discriminate].
-  assert (X : exact0 d /\ d_N d = 259200000000) by (vm_compute in E; inversion E; subst; split; reflexivity).
-  destruct X as [X N].
-  destruct (H 5 d 18000000000 (RInt 14) (or_introl eq_refl) X) as (r & R & _).
-  - rewrite N. reflexivity.
-  - cbn in R. discriminate.
-Qed.
-
-(* ------------------------------------------------------------------ Part 7: the return-type table *)
+(* ------------------------------------------------------------------ Part 6: the return-type table *)
 Definition kind_of_value (o : value) : Z :=
   match o with VInt _ => 1 | VFloat _ => 2 | VDur _ | VIvl _ => 3 | VTd _ => 4 end.
 Definition kind_of_res (r : opres) : Z :=
@@ -432,12 +522,11 @@ Proof.
            end; try discriminate H; inversion H; subst; cbn [kind_of_res]; vm_compute; tauto.
 Qed.
 
-(* where the table says AttributeError the method raises it *)
-Lemma attribute_error_where_table_says : forall m d o, In (m, kind_of_value o, 6) py_return_table ->
-  dur_method m d o = Raise E_AttributeError.
+(* the generated table has no AttributeError entry any more: no operand kind reaches a Duration-private attribute of `other` *)
+Lemma no_attribute_error_in_table : forall m k, ~ In (m, k, 6) py_return_table.
 Proof.
-  intros m d o H. vm_compute in H.
-  repeat (destruct H as [H|H]; [inversion H; subst; destruct o; try discriminate; reflexivity|]).
+  intros m k H. vm_compute in H.
+  repeat (destruct H as [H|H]; [discriminate H|]).
   contradiction.
 Qed.
 
@@ -445,10 +534,10 @@ Lemma is_arith_cases : forall m, is_arith m = true -> In m [1; 2; 4; 5; 6; 7; 8]
 Proof. intros m H. unfold is_arith in H. cbn. lia. Qed.
 
 (* a binary operator with a Duration (or Interval) on the left never yields a plain timedelta or NotImplemented:
-   it yields a Duration, or int / float / (int, Duration) for // / divmod by a Duration *)
+   it yields a Duration, or int / float / (int, Duration) for // / divmod by a Duration or a plain timedelta *)
 Definition duration_kind (m : Z) (o : value) (res : opres) : Prop :=
   (exists r, res = RDur r)
-  \/ (kind_of_value o = 3 /\ ((m = 5 /\ exists q, res = RInt q) \/ (m = 6 /\ exists x, res = RFloat x) \/ (m = 8 /\ exists q r, res = RPair q r))).
+  \/ ((kind_of_value o = 3 \/ kind_of_value o = 4) /\ ((m = 5 /\ exists q, res = RInt q) \/ (m = 6 /\ exists x, res = RFloat x) \/ (m = 8 /\ exists q r, res = RPair q r))).
 
 Lemma method_result_kind : forall m d o res, In m [1; 2; 4; 5; 6; 7; 8] -> dur_method m d o = Ok res -> res <> RNotImpl ->
   duration_kind m o res.
@@ -458,7 +547,7 @@ Proof.
   destruct res; try (exfalso; apply NI; reflexivity); cbn [kind_of_res] in T; vm_compute in T;
     repeat (destruct T as [T|T]; [try discriminate T; inversion T; subst;
       first [ left; eexists; reflexivity
-            | right; split; [reflexivity|]; first
+            | right; split; [first [left; reflexivity | right; reflexivity]|]; first
                 [ left; split; [reflexivity|eexists; reflexivity]
                 | right; left; split; [reflexivity|eexists; reflexivity]
                 | right; right; split; [reflexivity|eexists; eexists; reflexivity] ] ] |]);
@@ -509,7 +598,7 @@ Qed.
 Lemma delegated_all : forall m, is_arith m = true -> delegated m = true.
 Proof. intros m H. apply is_arith_cases in H. cbn in H. destruct H as [<-|[<-|[<-|[<-|[<-|[<-|[<-|[]]]]]]]]; reflexivity. Qed.
 
-(* ------------------------------------------------------------------ Part 8: comparisons and hash are timedelta's *)
+(* ------------------------------------------------------------------ Part 7: comparisons and hash are timedelta's *)
 Lemma compare_is_native : forall m a b, native_of a <> None -> native_of b <> None ->
   exists x y, native_of a = Some x /\ native_of b = Some y /\ cmp_op m a b = Ok (td_compare m x y).
 Proof.
@@ -535,7 +624,7 @@ Qed.
 Lemma hash_is_native : forall d1 d2, d_N d1 = d_N d2 -> unop 17 (VDur d1) = unop 17 (VDur d2).
 Proof. intros d1 d2 H. cbn. rewrite H. reflexivity. Qed.
 
-(* ------------------------------------------------------------------ Part 9: as_integer_ratio is exact; examples *)
+(* ------------------------------------------------------------------ Part 8: as_integer_ratio is exact; examples *)
 Lemma strip2_spec : forall m k m' k', 0 <= k -> strip2 m k = (m', k') ->
   Zpos m * 2 ^ k' = Zpos m' * 2 ^ k /\ 0 <= k' <= k.
 Proof.
@@ -570,6 +659,16 @@ Example truediv_ties : exists d5 d7 dm5 r5 r7 rm5,
 Proof.
   do 6 eexists.
   repeat (split; [vm_compute; reflexivity|]). vm_compute; reflexivity.
+Qed.
+
+Example div_by_timedelta_witness : exists d r7 r8,
+  duration_new 3 0 0 0 0 0 0 0 0 = Ok d /\ exact0 d
+  /\ dur_method 5 d (VTd 18000000000) = Ok (RInt 14) /\ td_binop 5 (d_N d) 18000000000 = Ok (RInt 14)
+  /\ dur_method 6 d (VTd 18000000000) = td_binop 6 (d_N d) 18000000000
+  /\ dur_method 7 d (VTd 18000000000) = Ok (RDur r7) /\ d_N r7 = 7200000000
+  /\ dur_method 8 d (VTd 18000000000) = Ok (RPair 14 r8) /\ d_N r8 = 7200000000.
+Proof.
+  do 3 eexists. repeat (split; [vm_compute; reflexivity|]). vm_compute; reflexivity.
 Qed.
 
 Example neg_years_example : exists d r,
